@@ -1,7 +1,7 @@
 SPECIFICATION Spec
 CONSTANTS
   Cls = {"P", "C", "N", "I", "T"}
-  MsgKinds = {"explicit", "kwtemplate", "class", "kwnested", "kwcustom", "kwattr", "kwhostile"}
+  MsgKinds = {"explicit", "kwtemplate", "class", "kwnested", "kwcustom", "kwattr", "kwhostile", "kwshared"}
   Outs = {"T", "F", "CR", "MR", "CX"}
   DelayCls = {"P", "C"}
   Vals = {"o1", "o2"}
